@@ -435,6 +435,18 @@ pub fn check(c: &Case) -> Outcome {
         Ok(Err(e)) => return fail(format!("`{src}` (rendering of a valid tree) does not parse: {}", crate::sut::trunc(&e, 300))),
         Ok(Ok(t)) => t,
     };
+    // the interpreter crate's entry point yields the very same tree (ids included) as the parser crate's
+    match guard(|| cel_interpreter::Program::compile(&src).map(|p| format!("{p:?}")).map_err(|e| e.to_string())) {
+        Err(p) => return fail(format!("Program::compile of `{src}` {}", p.short())),
+        Ok(Err(e)) => return fail(format!("`{src}` parses with cel_parser::Parser but Program::compile rejects it: {}", crate::sut::trunc(&e, 300))),
+        Ok(Ok(text)) => {
+            // (the Debug rendering of a Program contains that of its expression, whatever else a Program may hold)
+            let want = format!("{got:?}");
+            if !text.contains(&want) {
+                return fail(format!("`{src}`: Program::compile holds a different tree than cel_parser::Parser::parse returns for the same text:\n  parser  {}\n  program {}", crate::sut::trunc(&want, 1000), crate::sut::trunc(&text, 1000)));
+            }
+        }
+    }
     zero_ids(&mut got);
     if minimal {
         flatten_logic(&mut got);
